@@ -5,7 +5,6 @@ import (
 	"bytes"
 	"fmt"
 	"os"
-	"os/exec"
 	"strconv"
 	"strings"
 
@@ -462,23 +461,21 @@ func binaryReadVariant(h *Hist, stmts []readStmt, content []byte) *core.Violatio
 		return out.String()
 	}
 	run := func(kind string) (string, error) {
-		cmd := exec.Command(CalcBinary, sf)
-		var outb bytes.Buffer
-		cmd.Stdout = &outb
-		switch kind {
-		case "file":
-			f, _ := os.Open(inf)
-			defer f.Close()
-			cmd.Stdin = f
-		case "pipe":
-			pr, pw, _ := os.Pipe()
-			pw.Write(content)
-			pw.Close()
-			defer pr.Close()
-			cmd.Stdin = pr
+		var out string
+		var code int
+		var hung bool
+		if kind == "file" {
+			out, code, hung = runBinary(inf, nil, sf)
+		} else {
+			out, code, hung = runBinary("", content, sf)
 		}
-		err := cmd.Run()
-		return norm(outb.Bytes()), err
+		if hung {
+			return norm([]byte(out)), fmt.Errorf("did not terminate")
+		}
+		if code != 0 {
+			return norm([]byte(out)), fmt.Errorf("exit status %d", code)
+		}
+		return norm([]byte(out)), nil
 	}
 	for _, kind := range []string{"file", "pipe"} {
 		got, err := run(kind)
